@@ -478,6 +478,20 @@ async fn run_world(t: Trace, name: char) -> WorldRun {
                     if name == 'B' {
                         if let Some(tk) = tokens.take() {
                             let verb = tk[0].to_ascii_uppercase();
+                            // the specific error for an unknown command / missing parameters
+                            let numerics: Vec<String> = obs[S].lines.iter().filter_map(|l| irc::parse(l)).filter(|p| p.is_numeric()).map(|p| p.cmd.clone()).collect();
+                            let min_arity = match verb.as_str() {
+                                "PRIVMSG" | "NOTICE" | "KICK" | "INVITE" | "OPER" | "KILL" => 2,
+                                "TOPIC" | "MODE" | "USERHOST" | "JOIN" | "PING" | "NICK" | "PART" | "WHO" | "WHOIS" | "ISON" | "WALLOPS" => 1,
+                                _ => 0,
+                            };
+                            if verb == "FROBNICATE" && !numerics.iter().any(|n| n == "421") {
+                                wr.local_violation = Some((step, "unknown_command_not_421".into(), format!("unknown command {:?} answered with {:?}", sent_txt, obs[S].lines)));
+                            } else if verb != "FROBNICATE" && tk.len() - 1 < min_arity && !numerics.iter().any(|n| n == "461") {
+                                wr.local_violation = Some((step, "missing_params_not_461".into(), format!("{:?} lacks parameters but was answered with {:?}", sent_txt, obs[S].lines)));
+                            } else if verb == "FROBNICATE" || tk.len() - 1 < min_arity {
+                                *wr.counters.entry("specific_error_ok".into()).or_insert(0) += 1;
+                            }
                             let relay = ["PRIVMSG", "NOTICE", "TOPIC", "PART", "KICK", "NICK", "INVITE", "WALLOPS"].contains(&verb.as_str());
                             let refused = obs[S].lines.iter().any(|l| irc::parse(l).map_or(false, |p| p.is_numeric() && p.cmd.starts_with('4') || p.cmd.starts_with("ERROR")));
                             if relay && !refused {
